@@ -137,7 +137,10 @@ def judge_eval(ctx, case, r, m):
     flags = m.get('flags') or {}
     if flags.get('regex_unsupported'):
         out['verdict'] = 'skip:regex_unsupported'; return out
-    if flags.get('float_overflow'):
+    # a number literal whose value is not exactly an f64 is outside the exact-number model (skip) - except a literal beyond the range of
+    # f64 that the crate ACCEPTED: the exact-number spec says what comparisons with it must give, and the crate has to meet that or reject it
+    nonfinite_accepted = bool(flags.get('nonfinite_literal')) and status_of(r) == 'ok'
+    if flags.get('float_overflow') and not nonfinite_accepted:
         out['verdict'] = 'skip:number_literal_outside_exact_f64_domain'; return out
     out['corr'] = corr_differs(prop, r, m['impl'])
     pr = proj_eval(prop, r)
@@ -160,7 +163,7 @@ def judge_eval(ctx, case, r, m):
     if prop == 'C08':
         # the only source of Err is an invalid query string: whatever the model parser accepts must evaluate to Ok
         return out
-    if rfc in ('invalid', 'unjudged', None):
+    if rfc in ('invalid', 'unjudged', None) and not (rfc == 'unjudged' and nonfinite_accepted):
         out['verdict'] = 'skip:rfc_' + str(rfc) if not out['corr'] else 'ok'
         return out
     if prop == 'C03':
@@ -642,7 +645,7 @@ def ladder_suite(ctx, name, lines, res):
         res.nontrivial.add(chash([c['shape'], c['depth']]))
         if st in ('panic', 'abort', 'timeout'):
             kfs = [k for k in ctx.my_kf if (k['class'] == 'deep_nesting' and c['shape'] in k.get('shapes', []) and c['depth'] >= k.get('min_depth', 1000) and st == 'abort')
-                   or (k['class'] == 'exponential_backtracking' and c['shape'] == k.get('shape') and c['depth'] >= k.get('min_depth', 1000) and st == 'timeout')]
+                   or (k['class'] == 'exponential_backtracking' and c['shape'] in (k.get('shapes') or [k.get('shape')]) and c['depth'] >= k.get('min_depth', 1000) and st == 'timeout')]
             if kfs:
                 res.stats['known_finding_cases'] += 1
                 for k in kfs: res.kf_seen.setdefault(k['id'], k['what'])
